@@ -6,7 +6,7 @@ PLANS = {
     'C01': dict(
         oracle='C01', level='exploration',
         profiles=[('core', 2), ('core_smi', 1), ('hier', 2), ('hier_sparse', 2)], curated=[], configs=ALLCFG,
-        cp=dict(max_ops=25, kinds=['P']), examples=(300, 3000), floor=(60, 240),
+        cp=dict(max_ops=25, kinds=['P']), examples=(300, 1500), floor=(60, 240),
         rule='Hypothesis-generated event histories with per-step guard valuations on generated machines (core/hier profiles: '
              '1-3 regions, depth<=3, conflicting rows, state- and machine-internal tables incl. 2-3 conflicting machine-level rows; '
              'hier_sparse: depth 3 where each level mentions only 2-3 of 6 event types); oracle: per (machine,region) ordered '
@@ -19,7 +19,7 @@ PLANS = {
     'C02': dict(
         oracle='C02', level='exploration',
         profiles=[('core', 2), ('hier', 3), ('policy_before', 1)], curated=[], configs=ALLCFG,
-        cp=dict(max_ops=25, kinds=['P', 'P', 'P', 'P', 'T'], final_stop=True), examples=(300, 3000), floor=(40, 160),
+        cp=dict(max_ops=25, kinds=['P', 'P', 'P', 'P', 'T'], final_stop=True), examples=(300, 1500), floor=(40, 160),
         rule='Generated histories (start/process_event/stop+restart) on core/hier machines; oracle: per root region the '
              'exit/action/entry token sequence and the active configuration after each operation equal the reference model '
              '(exit cascade innermost first, actions in written order, entry cascade outermost first, then switch). Non-trivial = '
@@ -30,7 +30,7 @@ PLANS = {
     'C06': dict(
         oracle='C06', level='exploration',
         profiles=[('core', 3), ('hier', 2)], curated=[], configs=ALLCFG,
-        cp=dict(max_ops=25, kinds=['P']), examples=(300, 3000), floor=(40, 160),
+        cp=dict(max_ops=25, kinds=['P']), examples=(300, 1500), floor=(40, 160),
         rule='Generated histories with valuations forcing mixed outcomes; model-free invariants per process_event call: region '
              'indices of observed behaviours never decrease per machine; handled bit <=> a transition behaviour ran; zero <=> no '
              'guard consulted and nothing ran; no_transition multiset == root active states iff zero, never on a submachine; '
@@ -41,7 +41,7 @@ PLANS = {
     'C07': dict(
         oracle='C07', level='exploration',
         profiles=[('hier', 4), ('hier_sparse', 2), ('defer_nested_outer', 1)], curated=[], configs=ALLCFG,
-        cp=dict(max_ops=25, kinds=['P', 'P', 'P', 'P', 'T'], final_stop=True), examples=(400, 3000), floor=(20, 80),
+        cp=dict(max_ops=25, kinds=['P', 'P', 'P', 'P', 'T'], final_stop=True), examples=(400, 1500), floor=(20, 80),
         rule='Generated histories on machines of depth 2-3; oracle: per root region the sequence of (behaviour kind, nesting '
              'level) equals the model (inner levels consulted first, single consumption, cascades by level) and no behaviour of '
              'a machine that is inactive before and after the step is observed. Non-trivial = a step whose guards were consulted '
@@ -51,7 +51,7 @@ PLANS = {
     'C08': dict(
         oracle='C08', level='exploration',
         profiles=[('history', 2), ('hist_explicit', 3), ('pseudo', 1), ('pseudo_nc', 1)], curated=[], configs=ALLCFG,
-        cp=dict(max_ops=30, kinds=['P']), examples=(400, 3000), floor=(20, 80),
+        cp=dict(max_ops=30, kinds=['P']), examples=(400, 1500), floor=(20, 80),
         rule='Generated enter/move/exit histories on machines whose submachines carry each history policy (1-3 regions), incl. '
              'explicit/fork/entry-point entries; oracle: entry behaviours per root region and active states of active machines '
              'after each step equal R-history. Non-trivial = a (re-)entry of a history submachine whose remembered states differ '
@@ -61,7 +61,7 @@ PLANS = {
     'C09': dict(
         oracle='C09', level='exploration',
         profiles=[('pseudo', 4), ('pseudo_nc', 2), ('hist_explicit', 1)], curated=[], configs=ALLCFG,
-        cp=dict(max_ops=30, kinds=['P']), examples=(400, 3000), floor=(100, 400),
+        cp=dict(max_ops=30, kinds=['P']), examples=(400, 1500), floor=(100, 400),
         rule='Generated histories on machines combining direct<>, fork, entry_pt<> and exit_pt<> rows; oracle: every step that '
              'touches a pseudo construct (pseudo state entered/left, pseudo row consulted, or an exit point event sent while the '
              'exit point is not active) equals the model token for token, including the event each behaviour receives. '
@@ -71,7 +71,7 @@ PLANS = {
     'C10': dict(
         oracle='C10', level='exploration',
         profiles=[('completion', 3), ('completion_defer', 2), ('completion_sub', 2)], curated=[], configs=ALLCFG,
-        cp=dict(max_ops=30, kinds=['P', 'P', 'P', 'P', 'Q', 'Q', 'X', 'T'], no_restart_with_deferral=True), examples=(400, 3000), floor=(100, 400),
+        cp=dict(max_ops=30, kinds=['P', 'P', 'P', 'P', 'Q', 'Q', 'X', 'T'], no_restart_with_deferral=True), examples=(400, 1500), floor=(100, 400),
         rule='Generated histories (process_event, enqueue_event, execute queued all/single, stop/start) on machines with completion '
              'rows (chains, conflicts, guards frozen per entry of the source; also with root-level deferral and inside multi-region '
              'submachines that are initial states); oracle: per (machine,region) completion firings with the guard consultations '
@@ -85,7 +85,7 @@ PLANS = {
         profiles=[('intro', 6)], curated=[], configs=ALLCFG,
         cp=dict(max_ops=30, kinds=['P', 'P', 'P', 'P', 'Q', 'X', 'T'], auto_probe=True, final_stop=True,
                 scripts={'p': ['r', 'Q', 'q']}),
-        examples=(300, 2500), floor=(25, 100),
+        examples=(300, 1250), floor=(25, 100),
         rule='Generated start/process_event/enqueue/execute-queued/stop histories (callbacks submit further events) on machines '
              'with hierarchy, history, pseudo states and completion rows; full introspection probe after every operation. '
              'Model-free oracle: entry/exit ledger alternates; one entered state per region of each active machine and it belongs '
@@ -100,7 +100,7 @@ PLANS = {
         profiles=[('queue', 6)], curated=[], configs=ALLCFG,
         cp=dict(max_ops=25, kinds=['P', 'P', 'P', 'Q', 'Q', 'X', 'N'], scripts={'p': ['f', 'r', 'q', 'Q'], 't': True},
                 start_scripts={'p': ['f', 'r', 'q', 'Q']}),
-        examples=(300, 2500), floor=(100, 400),
+        examples=(300, 1250), floor=(100, 400),
         rule='Generated histories in which behaviours at arbitrary callback ordinals (guards, exits, actions, entries, also during '
              'start()) submit 0-3 further events via process_event/enqueue_event on the machine they received or on the root, '
              'interleaved with top-level enqueue_event / execute_queued_events / execute_single_queued_event; every occurrence '
@@ -118,7 +118,7 @@ PLANS = {
         # handled events, a quiet repeat operation can
         directed=[('seqwrap', ['S:0 P:0:1:0 RP:1:%d:0 P:2:2:0 N' % n for n in list(range(250, 262)) + list(range(65528, 65541))])],
         cp=dict(max_ops=30, kinds=['P', 'P', 'P', 'P', 'Q', 'X', 'N'], scripts={'p': ['r', 'Q']}),
-        examples=(200, 2000), floor=(60, 240),
+        examples=(200, 1000), floor=(60, 240),
         rule='Generated histories on machines whose states defer 1-2 event types through each of the three mechanisms: a deferred_events '
              'list, an unguarded row with the Defer action, and (backmp11) is_event_deferred predicates whose verdict is read from '
              'the trace; root level inside the documented back/back11 domain (no row on a deferred event in the deferring state or '
@@ -137,7 +137,7 @@ PLANS = {
         oracle='C11', level='exploration',
         profiles=[('blocking', 6)], curated=[], configs=ALLCFG,
         cp=dict(max_ops=30, kinds=['P', 'P', 'P', 'P', 'P', 'Q', 'X', 'T'], scripts={'p': ['r', 'Q']}),
-        examples=(300, 2500), floor=(10, 40),
+        examples=(300, 1250), floor=(10, 40),
         rule='Generated histories on machines whose root declares terminate and interrupt states (1-3 regions, single and multiple '
              'end-interrupt events, flags, completion rows, queued events and submissions from behaviours pending when the blocking '
              'state is entered), with long tails of events afterwards. Model-free invariant: while a blocking state is entered no '
@@ -150,7 +150,7 @@ PLANS = {
         oracle='C17', level='exploration',
         profiles=[('flags', 3), ('flags_deep', 2), ('policy_after_action', 1), ('policy_before', 1)], curated=[], configs=ALLCFG,
         cp=dict(max_ops=25, kinds=['P', 'P', 'P', 'P', 'T'], scripts={'b': True}, auto_probe=True),
-        examples=(300, 2500), floor=(10, 40),
+        examples=(300, 1250), floor=(10, 40),
         rule='Generated histories on machines with user flags on simple states, submachine states and substates; probe of every '
              '(machine, flag) with OR and AND after every operation and probes from inside behaviours at generated callback ordinals. '
              'Oracle: OR <=> some state of the active configuration (recursively) carries the flag; AND <=> every region of the '
@@ -164,7 +164,7 @@ PLANS = {
         profiles=[('policy_after_entry', 2), ('policy_after_action', 2), ('policy_after_exit', 2), ('policy_before', 2), ('policy_default', 1)],
         curated=[], configs=ALLCFG,
         cp=dict(max_ops=20, kinds=['P'], scripts={'b': True}),
-        examples=(300, 2500), floor=(100, 400),
+        examples=(300, 1250), floor=(100, 400),
         rule='Machines generated under each of the four active-state-switch policies (and the default); behaviours at generated '
              'callback ordinals (guard, exit, action, entry of external transitions, also into/out of submachines and in orthogonal '
              'regions) read current_state()/get_active_state_ids() of every machine and every flag. Oracle: each probe equals the '
@@ -176,7 +176,7 @@ PLANS = {
         oracle='C12', level='fault_enumeration', mode='fault_enum', keep_cases=6, post='c12_uninit',
         profiles=[('throw', 3), ('throw_after_action', 1), ('throw_after_exit', 1), ('throw_before', 1)], curated=[], configs=ALLCFG,
         cp=dict(kinds=['P', 'P', 'P', 'Q', 'X'], scripts={'p': ['r', 'Q']}, cont_scripts={'p': ['r', 'Q'], 't': True}, max_prefix=8, max_cont=5),
-        examples=(60, 500), floor=(150, 600),
+        examples=(60, 250), floor=(150, 600),
         rule='Fault enumeration: for each generated (machine, prefix history, step) the step is first run fault-free to count its '
              'callback positions (guards, every exit and entry of a cascade, actions, completion transitions, behaviours run for '
              'queued occurrences, all nesting levels); then EVERY position is used as the throw point on a fresh machine with the '
@@ -192,7 +192,7 @@ PLANS = {
         oracle='C13', level='exploration', multi=True,
         profiles=[('common', 5), ('common_smi', 2), ('core_smi', 1)], curated=[], configs=ALLCFG,
         cp=dict(max_ops=25, kinds=['P', 'P', 'P', 'P', 'P', 'Q', 'X', 'T'], xmodes=['a'], scripts={'p': ['r', 'Q'], 't': True}, final_stop=True),
-        examples=(250, 2000), floor=(100, 400),
+        examples=(250, 1000), floor=(100, 400),
         rule='Differential: generated machines in the common feature subset (hierarchy, 1-3 regions, conflicts, state-internal '
              'tables, completion rows with guards frozen per entry, history, explicit/fork/entry/exit points, root-level deferral '
              'without contradicting rows, root-level blocking states, flags) are compiled for every configuration (back, back + '
@@ -206,7 +206,7 @@ PLANS = {
     ),
     'C14': dict(
         custom='c14_run', oracle='C14', level='exploration', profiles=[('frontlang', 3), ('frontlang2', 2)], configs=[1, 4, 5], cp=dict(max_ops=20, kinds=['P']),
-        examples=(200, 1500),
+        examples=(200, 750),
         rule='Three sub-checks. (1) Front-end differential: generated flat machines (1-3 regions, conflicts, composite guards over '
              'logging atoms, action sequences of 0-3, internal and anonymous rows, flags, terminate states) are emitted with functor '
              'rows, with basic rows (row/a_row/g_row/_row/irow family, every third row through the row2 family), as an eUML '
@@ -224,7 +224,7 @@ PLANS = {
         oracle='C15', level='exploration', mode='copy',
         profiles=[('copy', 4), ('copy_hist', 2)], curated=[], configs=ALLCFG,
         cp=dict(max_ops=26, scripts={'p': ['r', 'Q']}, moves=False), cp_mp11=dict(moves=True),
-        examples=(500, 3000), floor=(60, 240),
+        examples=(500, 1500), floor=(60, 240),
         rule='Generated histories with copy-construction (from a const reference), copy-assignment (backmp11 additionally move) at '
              'arbitrary quiescent points - nested non-initial configurations, history memory, pending enqueued and deferred '
              'occurrences - followed by different, interleaved continuations of original and copies (incl. draining pending '
@@ -239,7 +239,7 @@ PLANS = {
         oracle='C16', level='exploration', mode='serial', libs=['-lboost_serialization'],
         profiles=[('serial', 6)], curated=[], configs=[1, 2, 3, 4],
         cp=dict(max_ops=22, auto_probe=True),
-        examples=(250, 2000), floor=(20, 80),
+        examples=(250, 1000), floor=(20, 80),
         rule='Generated histories on nested machines (1-3 regions, each history policy, pseudo states, completion rows; states and '
              'front-ends with and without do_serialize) with save + load into a freshly constructed machine (text and binary '
              'archives) at arbitrary quiescent points with empty queues, then continuations on original and loaded machines. Oracle: '
@@ -268,7 +268,7 @@ PLANS = {
         oracle='C18', level='exploration',
         profiles=[('events', 5), ('events_smi', 3)], curated=[], configs=[1, 4, 5],
         cp=dict(max_ops=25, kinds=['P', 'P', 'P', 'P', 'Q', 'X']),
-        examples=(300, 2500), floor=(100, 400),
+        examples=(300, 1250), floor=(100, 400),
         rule='Generated machines (depth 1-2) mixing, in one state and across submachine levels, rows triggered by the exact event type, '
              'by a public base class (1-2 inheritance levels) and by a Kleene type (boost::any for back/back11, std::any for backmp11) at '
              'varying table positions; every concrete event type is sent (directly and through enqueue/execute) with generated payloads '
